@@ -2,8 +2,11 @@ package p_blockb
 
 import (
 	"bytes"
+	"context"
 	"fmt"
+	"sort"
 	"strings"
+	"sync"
 	"testing"
 	"time"
 
@@ -734,6 +737,12 @@ func c13Judge(rt *rapid.T, r *ev.Rec, c *c13Chain, f c13Forgery) {
 		}
 	}
 
+	// ---- the same proof delivered through the suffrage history builder (the consumer of proofs from remote nodes): a proof the
+	// statement rejects must not be accepted there either, whatever order the proofs of a batch arrive in
+	if builderClass := c13ThroughBuilder(rt, r, c, f, committed && leads && follows, desc); builderClass != "" {
+		defer func() { r.Class(builderClass, 1) }()
+	}
+
 	nontrivial := f.Kind != "valid" && v.validErr == nil
 	classes := []string{"kind:" + f.Kind}
 
@@ -759,4 +768,159 @@ func c13Judge(rt *rapid.T, r *ev.Rec, c *c13Chain, f c13Forgery) {
 			"states_in_block": c.Sufs[f.Target].NStates, "detail": strings.TrimSpace(f.Detail), "accepted": accepted(v),
 			"prove_error": bbErrStr(v.proveErr), "oracle": map[string]bool{"committed": committed, "path_leads_to_root": leads, "follows_previous": follows}})
 	}
+}
+
+// c13ThroughBuilder serves the real proofs of the chain, with the proof of suffrage height f.Target replaced by f.Proof, to a real
+// isaac.SuffrageStateBuilder (no local state, one batch). All by-height requests are held until they have all arrived (or a
+// grace period passed) and are then answered one after another in a drawn order, so "the last proof is handled before its
+// predecessor" and every other order is reached. Only forgeries given with the true previous state are used.
+func c13ThroughBuilder(rt *rapid.T, r *ev.Rec, c *c13Chain, f c13Forgery, acceptable bool, desc string) string {
+	n := len(c.Sufs)
+	if n < 2 || f.Proof == nil || f.Proof.IsValid(gen.NetworkID) != nil {
+		return ""
+	}
+
+	sh, ok := c13SufHeight(f.Proof.State())
+	if !ok || int(sh.Int64()) != f.Target {
+		return "" // the builder rejects a proof of another suffrage height by construction; not this property
+	}
+
+	var truePrev base.State
+	if f.Target > 0 {
+		truePrev = c.Sufs[f.Target-1].State
+	}
+
+	switch {
+	case f.Prev == nil && truePrev != nil, f.Prev != nil && truePrev == nil:
+		return ""
+	case f.Prev != nil && !f.Prev.Hash().Equal(truePrev.Hash()):
+		return ""
+	}
+
+	order := rapid.SampledFrom([]string{"ascending", "descending", "drawn"}).Draw(rt, "builderOrder")
+	prio := make([]int, n)
+
+	for i := range prio {
+		switch order {
+		case "ascending":
+			prio[i] = i
+		case "descending":
+			prio[i] = n - i
+		default:
+			prio[i] = rapid.IntRange(0, 1000).Draw(rt, "prio")
+		}
+	}
+
+	proofOf := func(h int) base.SuffrageProof {
+		if h == f.Target {
+			return f.Proof
+		}
+
+		return c.Sufs[h].Proof
+	}
+
+	var mu sync.Mutex
+
+	waiting := map[int]chan struct{}{}
+	released := false
+
+	release := func() {
+		mu.Lock()
+		if released {
+			mu.Unlock()
+
+			return
+		}
+
+		released = true
+
+		hs := make([]int, 0, len(waiting))
+		for h := range waiting {
+			hs = append(hs, h)
+		}
+
+		sort.SliceStable(hs, func(a, b int) bool { return prio[hs[a]] < prio[hs[b]] })
+
+		chs := make([]chan struct{}, len(hs))
+		for i, h := range hs {
+			chs[i] = waiting[h]
+		}
+		mu.Unlock()
+
+		for _, ch := range chs {
+			close(ch)
+			time.Sleep(300 * time.Microsecond) // lets the released answer be proven before the next one (affects order coverage only)
+		}
+	}
+
+	b := isaac.NewSuffrageStateBuilder(gen.NetworkID,
+		func(context.Context) (base.Height, base.SuffrageProof, bool, error) {
+			return c.Sufs[n-1].BlockHeight, proofOf(n - 1), true, nil
+		},
+		func(_ context.Context, h base.Height) (base.SuffrageProof, bool, error) {
+			i := int(h.Int64())
+			if i < 0 || i >= n {
+				return nil, false, nil
+			}
+
+			ch := make(chan struct{})
+
+			mu.Lock()
+			late := released
+			if !late {
+				waiting[i] = ch
+			}
+			all := len(waiting) == n
+			mu.Unlock()
+
+			switch {
+			case late:
+			case all:
+				go release()
+				<-ch
+			default:
+				select {
+				case <-ch:
+				case <-time.After(50 * time.Millisecond):
+					go release()
+					<-ch
+				}
+			}
+
+			return proofOf(i), true, nil
+		},
+		func(context.Context) (base.State, bool, error) { return nil, false, nil },
+	)
+
+	var berr error
+
+	var proofs []base.SuffrageProof
+
+	func() {
+		defer func() {
+			if x := recover(); x != nil {
+				if ev.IsRapidUnwind(x) {
+					panic(x)
+				}
+
+				berr = fmt.Errorf("panic: %v", x)
+			}
+		}()
+
+		_, proofs, _, berr = b.Build(context.Background(), nil)
+	}()
+
+	switch {
+	case acceptable && berr != nil && f.Kind == "valid":
+		rt.Fatalf("inconclusive: the builder rejects the untampered chain (%s order): %v", order, berr)
+	case !acceptable && berr == nil && len(proofs) > 0:
+		r.Violation(rt, "builder-accepts-unbound-proof", "%s: the suffrage history builder accepted the chain containing this proof (answers released in %s order %v) although the statement rejects the proof",
+			desc, order, prio)
+	}
+
+	if acceptable {
+		return "builder:acceptable-" + order
+	}
+
+	return "builder:forged-" + order
 }
